@@ -688,6 +688,21 @@ pub fn drive_dec(spec: &DecSpec, mode: DecMode, source: &mut dyn OpSource, mut p
                 let pending = &spec.stream[consumed..visible];
                 let last = eof && visible == len;
                 let proxy = state_proxy(&decs[0]);
+                // this call's method and output form (the session's own unless the pump switches)
+                let call_repl = match offer.method {
+                    1 => true,
+                    2 => false,
+                    _ => spec.repl,
+                };
+                let call_form16 = match offer.form {
+                    1 => false,
+                    2 => true,
+                    _ => spec.form16,
+                };
+                let min = min_cap(call_form16);
+                if call_repl != spec.repl || call_form16 != spec.form16 {
+                    run.probe("method_or_form_switched");
+                }
                 // capacity: from the offer, or from the matching query
                 let mut cap = if offer.submin { offer.cap } else { offer.cap.max(min) };
                 if offer.submin {
@@ -695,7 +710,7 @@ pub fn drive_dec(spec: &DecSpec, mode: DecMode, source: &mut dyn OpSource, mut p
                 }
                 let mut by_query = false;
                 if offer.query {
-                    if let Some(q) = query_for(&decs[0], spec.form16, spec.repl, pending.len()) {
+                    if let Some(q) = query_for(&decs[0], call_form16, call_repl, pending.len()) {
                         if q <= (1 << 20) {
                             // never below the documented minimum: a smaller sink is
                             // outside the documented preconditions of decode_*
@@ -763,19 +778,19 @@ pub fn drive_dec(spec: &DecSpec, mode: DecMode, source: &mut dyn OpSource, mut p
                     let how = match (mode, i) {
                         (DecMode::Manual, 1) => How::Manual,
                         (DecMode::Manual, _) => How::Builtin { repl: true },
-                        _ => How::Builtin { repl: spec.repl },
+                        _ => How::Builtin { repl: call_repl },
                     };
                     let fill = match mode {
                         DecMode::Replicas => ((offer.fill as usize + i) % 6) as u8,
                         _ => offer.fill,
                     };
                     let mut o = offer.clone();
-                    if mode == DecMode::Manual && i == 1 && !spec.form16 {
+                    if (mode == DecMode::Manual && i == 1 && !call_form16) || (!call_form16 && o.kind == K_U16) {
                         o.kind = K_SLICE;
                     }
                     // the manual replica gets exactly the capacity replica 0 really had
                     let cap_i = if mode == DecMode::Manual && i == 1 { outs[0].cap_used } else { cap };
-                    outs.push(guarded_call(d, how, spec.form16, pending, &o, cap_i, fill, last, &stale, in_contract));
+                    outs.push(guarded_call(d, how, call_form16, pending, &o, cap_i, fill, last, &stale, in_contract));
                 }
                 for o in outs.iter_mut() {
                     run.viols.append(&mut o.viols);
@@ -865,7 +880,7 @@ pub fn drive_dec(spec: &DecSpec, mode: DecMode, source: &mut dyn OpSource, mut p
                     if start < 0 {
                         run.viols.push(viol("C02", "malformed-before-stream-start", format!("Malformed({}, {}) after {} bytes consumed", l, a, consumed)));
                     }
-                    if spec.form16 {
+                    if call_form16 {
                         run.out16.push(0xFFFD);
                     } else {
                         run.out8.extend_from_slice(&[0xEF, 0xBF, 0xBD]);
